@@ -17,6 +17,7 @@ import StepModel.ComplexComplete9
 import StepModel.ComplexBuildDistinct
 import StepModel.ComplexReset
 import StepModel.ComplexCombo
+import StepModel.ComplexSim
 /-!
 # C08 — complex instances are accepted exactly when the supertype constraints allow them
 
@@ -584,8 +585,8 @@ theorem C08_reset_guarded : resetIsFull = true := by decide
 hierarchy in (any `viable` values, any `I_marked`, any `choice`s) and whatever marks the request list carries:
 `reset()` (model `resetST`) yields the state every call of the matcher model starts from (`fresh` of the same tree) —
 all `viable = UNKNOWN`, no SimpleList holding a mark, every OrList with `choice = −1`, `choiceCount = 0` — up to
-`OrList::choice1` (−2 after `reset()`, −1 after construction: it is written at the first alternative that counts before
-it is read, the invariant `OInv` behind `C08_accept_contains_derivation` assumes nothing about its start value), and
+`OrList::choice1` (−2 after `reset()`, −1 after construction: never read before it is written — proved,
+`C08_request_independent`), and
 `EntNode::unmarkAll` (`unmarkEnts`) leaves no mark and the names unchanged.  So the verdict on a request does not depend
 on the requests before it; on the real code this is the ordered-pairs stream of the check (every ordered pair of
 requests through one collect, verdict of the second = verdict on a fresh collect) and the regenerated `C08_reset_guarded`. -/
@@ -594,6 +595,25 @@ theorem C08_matches_restores_marks (t : ST) (es : Ents) :
     names (unmarkEnts es) = names es ∧ (∀ n, markAt (unmarkEnts es) n = .no) ∧
     (unmarkEnts es).map (·.mult) = es.map (·.mult) :=
   ⟨reset_startLike t, reset_holds t, unmarkEnts_names es, unmarkEnts_markAt es, unmarkEnts_mult es⟩
+
+/-- **The verdict on a request does not depend on the requests before it** (one collect per Registry, every complex
+instance of a file goes through it).  `matchesAt` is `ComplexList::matches` started on the shared hierarchy in a given
+state (`matchesList` = started on the freshly constructed one).  For *any* state `t` of the hierarchy — whatever earlier
+matching attempts, accepted or refused, left behind — the state `reset()` makes of it is taken through exactly the same
+steps as the constructed state, with the same outcome (also the same crash or exhausted fuel, if any), for either kind of
+matching.  The two start states differ in `OrList::choice1` (−2 after `reset()`, −1 after construction) and nothing
+else the matcher reads; that it never reads a `choice1` it has not written is proved as a simulation through all fifteen
+functions (`Sim`: states equal up to `choice1` of OrLists with `choice = −1` and `viable < MATCHSOME`, and up to the
+counters AND/ANDOR lists do not have).  The request list is built anew for every instance.  Real code: ordered-pairs
+stream of the check; the seeded C08-e2 (`reset()` returning early) breaks `C08_reset_guarded`. -/
+theorem C08_request_independent (fuel : Nat) (combo : Bool) (head : Tree) (t : ST) (ht : trV (skel t) = head) (es : Ents) :
+    matchesAt fuel combo head (resetST t) es = matchesList fuel combo head es :=
+  matches_after_reset fuel combo head t ht es
+
+/-- … more generally the matcher cannot tell apart two states that agree up to the fields it never reads before writing -/
+theorem C08_matches_ignores_unwritten_choice1 (fuel : Nat) (combo : Bool) (head : Tree) (h0 h0' : ST) (es : Ents)
+    (h : Sim h0 h0') : matchesAt fuel combo head h0 es = matchesAt fuel combo head h0' es :=
+  matchesAt_sim fuel combo head h0 h0' es h
 
 -- ------------------------------------------------------------------ EntNode::sort (renamed parts)
 /-- with strict comparisons in `lastSmaller` (the source before fixes/C08-2) two equal names make `EntNode::sort`
